@@ -974,12 +974,21 @@ class TorControlProtocol(LineOnlyReceiver):
             return True
         return False
 
+    def _wants_lines(self):
+        """
+        True if the lines being received are a 2xx reply to a command
+        that has a per-line callback (asynchronous 650 events and
+        error replies are never given to that callback).
+        """
+        return self.command and self.command[2] is not None and \
+            self.code is not None and 200 <= self.code < 300
+
     def _start_command(self, line):
         "for FSM"
         # print "startCommand",self.code,line
         self.code = int(line[:3])
         # print "startCommand:",self.code
-        if self.command and self.command[2] is not None:
+        if self._wants_lines():
             self.command[2](line[4:])
         else:
             self.response = line[4:] + '\n'
@@ -1003,7 +1012,7 @@ class TorControlProtocol(LineOnlyReceiver):
 
     def _accumulate_multi_response(self, line):
         "for FSM"
-        if self.command and self.command[2] is not None:
+        if self._wants_lines():
             self.command[2](line)
 
         else:
@@ -1012,7 +1021,7 @@ class TorControlProtocol(LineOnlyReceiver):
 
     def _accumulate_response(self, line):
         "for FSM"
-        if self.command and self.command[2] is not None:
+        if self._wants_lines():
             self.command[2](line[4:])
 
         else:
